@@ -165,7 +165,7 @@ func consumerSender(ctx context.Context, wg *sync.WaitGroup, urlBuffer <-chan *s
 			}
 
 			logger.Debug("sending new item to reactor", "item", newItem.GetShortID())
-			verifhook.AtKV("lq.before_insert", newItem.GetID(), URL.Value, int(URL.Hops))
+			verifhook.AtKV("lq.before_insert", newItem.GetID(), URL.Value+"\tvia="+URL.Via, int(URL.Hops))
 
 			// Send the new Item to the reactor
 			err = reactor.ReceiveInsert(newItem)
